@@ -465,6 +465,109 @@ def eval_model(ctx, policies, items):
     return out, None
 
 
+def to_ascii_host(h):
+    """the name net/http connects to for a host spelled with non-ASCII letters (IDNA ToASCII, label by label; only labels on which
+    IDNA 2003 and 2008 agree are generated)"""
+    h = h.strip().rstrip(".")
+    if all(ord(ch) < 128 for ch in h):
+        return h.lower()
+    return ".".join(lbl.encode("idna").decode("ascii") if any(ord(ch) > 127 for ch in lbl) else lbl.lower() for lbl in h.split("."))
+
+
+IDN_NAMES = ["b\u00fccher.example", "B\u00dcCHER.example", "xn--bcher-kva.example", "shop.b\u00fccher.example", "shop.xn--bcher-kva.example",
+             "\u043f\u0440\u0438\u043c\u0435\u0440.example", "xn--e1afmkfd.example", "m\u00fcnchen.example", "plain.example"]
+IDN_RULES = ["xn--bcher-kva.example", "b\u00fccher.example", "*.xn--bcher-kva.example", "*.b\u00fccher.example", "xn--e1afmkfd.example",
+             "\u043f\u0440\u0438\u043c\u0435\u0440.example"]
+
+
+def idn_block(ctx, info, rng):
+    """a host is the same host however it is spelled: net/http connects to the IDNA (punycode) form of a non-ASCII name, so a deny or
+    allow rule written in either spelling must judge a target or redirect written in either spelling.  Judged by the property (rule
+    and URL compared in ASCII form) and against the model on the ASCII forms (the IDNA conversion itself is glue outside the model)."""
+    pol_in, cases = [], []
+    for rule in IDN_RULES:
+        pol_in.append({"https_only": "off", "redirects": "on", "rebind": "off", "allow": [], "deny": [rule]})
+        pol_in.append({"https_only": "off", "redirects": "on", "rebind": "off", "allow": [rule], "deny": []})
+    pol_in.append({"https_only": "off", "redirects": "on", "rebind": "on", "allow": [], "deny": ["xn--bcher-kva.example"]})
+    dns_ok = {}
+    for nm in IDN_NAMES:
+        dns_ok[to_ascii_host(nm)] = [{"err": False, "ips": ["01010101"]}]
+        dns_ok[nm.lower()] = [{"err": False, "ips": ["01010101"]}]
+    for pi in range(len(pol_in)):
+        for nm in IDN_NAMES:
+            cases.append({"policy": pi, "chain": ["http://%s/x" % nm], "codes": [], "dns": dns_ok, "mode": "deliver"})
+            cases.append({"policy": pi, "chain": ["http://plain.example/x", "http://%s/y" % nm], "codes": [rng.choice([301, 302, 307, 308])], "dns": dns_ok, "mode": "deliver"})
+    rc, out, err = C.harness_run(info["hbin"], ["egress-run"], {"policies": pol_in, "cases": cases}, timeout=300)
+    if rc != 0:
+        raise RuntimeError("egress-run (IDN block) failed: " + err[-1500:])
+    impl = json.loads(out)
+    pols = impl["policies"]
+    stats = {"cases": len(cases), "denied_expected": 0, "model_rows": 0, "model_mismatches": 0}
+
+    def rule_hits(rule_text, host_ascii):
+        sub = rule_text.startswith("*.")
+        d = to_ascii_host(rule_text[2:] if sub else rule_text)
+        return (host_ascii != d and host_ascii.endswith("." + d)) if sub else host_ascii == d
+
+    items, idx = [], []
+    for ci, (c, r) in enumerate(zip(cases, impl["cases"])):
+        p_in = pol_in[c["policy"]]
+        if not pols[c["policy"]]["ok"]:
+            C.report(ctx, "idn:policy-rejected", "compile refuses the egress rule %r" % (p_in["allow"] + p_in["deny"]),
+                     {"kind": "request", "policy": p_in, "observed": pols[c["policy"]]})
+            continue
+        hosts = [to_ascii_host(bytes.fromhex(h["hostname"]).decode("utf-8")) for h in r["hops"]]
+        # the property's verdict, hop by hop
+        sends = 0
+        denied = False
+        for h in hosts:
+            hit_deny = any(rule_hits(t, h) for t in p_in["deny"])
+            hit_allow = (not p_in["allow"]) or any(rule_hits(t, h) for t in p_in["allow"])
+            if hit_deny or not hit_allow:
+                denied = True
+                break
+            sends += 1
+        stats["denied_expected"] += 1 if denied else 0
+        got_sends = len(r["sent"])
+        if got_sends != sends or (denied and r["err_class"] != "policy_denied") or (not denied and r["err_class"] != ""):
+            hop = "redirect-hop" if len(hosts) > 1 else "target"
+            kind = "deny-bypassed" if got_sends > sends and p_in["deny"] else ("allowlist-bypassed" if got_sends > sends else "refused-although-allowed")
+            C.report(ctx, "idn:%s:%s" % (kind, hop),
+                     "rule %r, chain %s (hosts in ASCII form %s): %d request(s) sent, error class %r; the policy %s after %d request(s) - net/http connects "
+                     "to the ASCII (punycode) form of a host, a rule must judge that name however rule and URL are spelled" %
+                     (p_in["allow"] + p_in["deny"], c["chain"], hosts, got_sends, r["err_class"], "denies the delivery" if denied else "allows every hop", sends),
+                     {"kind": "request", "case": c, "policy": p_in, "compiled_policy": pols[c["policy"]], "observed": {k: r[k] for k in ("sent", "queries", "status", "err_class", "err_text")},
+                      "expected": {"requests": sends, "denied": denied}})
+        # the model on the ASCII forms (rules as compiled)
+        try:
+            for rl in pols[c["policy"]]["allow"] + pols[c["policy"]]["deny"]:
+                if not rl["is_cidr"]:
+                    rl["host"].encode("latin-1")
+        except UnicodeEncodeError:
+            continue
+        hops = []
+        for h, ha in zip(r["hops"], hosts):
+            hh = dict(h)
+            hh["hostname"] = ha.encode("ascii").hex()
+            hops.append(hh)
+        c2 = dict(c, dns={k: v for k, v in c["dns"].items() if all(ord(ch) < 128 for ch in k)})
+        items.append((c["policy"], c2, hops))
+        idx.append(ci)
+    mres, merr = eval_model(ctx, pols, items)
+    if mres is None:
+        return stats, "IDN block: model could not be evaluated: " + (merr or "")
+    for (pi, c, hops), ci, mr in zip(items, idx, mres):
+        r = impl["cases"][ci]
+        stats["model_rows"] += 1
+        want = "" if mr[1] == 0 else ("policy_denied" if mr[1] <= 6 else "other")
+        if len(r["sent"]) != mr[0] or r["err_class"] != want:
+            stats["model_mismatches"] += 1
+            C.report(ctx, "idn:model-differs", "chain %s under rules %s: implementation sent %d request(s) with error class %r, the model (ASCII forms) sends %d with outcome %d" %
+                     (cases[ci]["chain"], pol_in[pi]["allow"] + pol_in[pi]["deny"], len(r["sent"]), r["err_class"], mr[0], mr[1]),
+                     {"kind": "request", "case": cases[ci], "policy": pol_in[pi], "compiled_policy": pols[pi], "observed": {k: r[k] for k in ("sent", "err_class", "err_text")}})
+    return stats, None
+
+
 def decode_queries(nums):
     qs, i = [], 0
     while i < len(nums):
@@ -781,6 +884,12 @@ def main(ctx, replay):
         elif len(samples) < 8 and rng.random() < 0.004:
             samples.append({"case": c, "policy": pol_in[pi], "observed": {"sent": r["sent"], "err_class": r["err_class"], "status": r["status"]}})
 
+    idn_stats, idn_err = idn_block(ctx, info, rng)
+    dist["idn"] = idn_stats
+    evaluations += idn_stats["cases"]
+    mism += idn_stats["model_mismatches"]
+    if idn_err:
+        model_err.append(idn_err)
     proof_broken = C.proof_status(info, "C16") + model_err
     cov.update({
         "evaluations": evaluations,
